@@ -192,7 +192,7 @@ func Harness_C17_mercury() {
 		stop := vr.Str(vr.T("sel", k, ".stop"))
 		sel := &gtfsrt.EntitySelector{StopId: &stop}
 		en := ent{}
-		switch hConcretize(vr.Int(vr.T("sel", k, ".shape"), 0, 3), 0, 3) {
+		switch hConcretize(vr.Int(vr.T("sel", k, ".shape"), 0, 4), 0, 4) {
 		case 0: // no Mercury data
 		case 1: // "xx:NN"
 			digits := vr.Chars(vr.T("sel", k, ".priority"), 2, "digit")
@@ -202,6 +202,11 @@ func Harness_C17_mercury() {
 		case 2: // no colon
 			so := vr.Chars(vr.T("sel", k, ".nocolon"), 4, "alnum")
 			proto.SetExtension(sel, gtfsrt.E_MercuryEntitySelector, &gtfsrt.MercuryEntitySelector{SortOrder: &so})
+		case 4: // two colons: "xx:y:NN" (the shape NYCT publishes, e.g. MTASBWY:G:30)
+			digits := vr.Chars(vr.T("sel", k, ".priority2"), 2, "digit")
+			so := vr.Chars(vr.T("sel", k, ".prefix2"), 2, "alnum") + ":" + vr.Chars(vr.T("sel", k, ".mid"), 1, "alnum") + ":" + digits
+			proto.SetExtension(sel, gtfsrt.E_MercuryEntitySelector, &gtfsrt.MercuryEntitySelector{SortOrder: &so})
+			en = ent{true, hAtoi(digits)}
 		default: // colon, not a number
 			so := "GTFS:ab"
 			proto.SetExtension(sel, gtfsrt.E_MercuryEntitySelector, &gtfsrt.MercuryEntitySelector{SortOrder: &so})
